@@ -794,11 +794,10 @@ Qed.
 Definition cfl : sflags := fl_ns true.      (* the canonical spelling: compact, solidus unescaped *)
 
 (* string literals: every escape form survives, except that of the solidus *)
+Definition lexst_is_str (s : lexst) : bool := match s with LStr => true | _ => false end.
 Definition char_sig_ok (ns : bool) (c : byte) : bool :=
-  match sig_run LStr (escape_char (fl_ns ns) c) with
-  | (LStr, o) => bytes_eqb o (escape_char cfl c)
-  | _ => false
-  end.
+  lexst_is_str (fst (sig_run LStr (escape_char (fl_ns ns) c))) &&
+  bytes_eqb (snd (sig_run LStr (escape_char (fl_ns ns) c))) (escape_char cfl c).
 Lemma char_sig fl c : byte_ok c -> sig_run LStr (escape_char fl c) = (LStr, escape_char cfl c).
 Proof.
   intros Hc.
@@ -807,8 +806,9 @@ Proof.
   rewrite escape_char_ns.
   assert (H : char_sig_ok (noslash fl) c = true).
   { destruct (noslash fl); [apply (zrange_forall _ _ 0 Ht)|apply (zrange_forall _ _ 0 Hf)]; unfold byte_ok in Hc; lia. }
-  unfold char_sig_ok in H. destruct (sig_run LStr (escape_char (fl_ns (noslash fl)) c)) as [[] o]; try discriminate.
-  apply bytes_eqb_eq in H. rewrite H. reflexivity.
+  unfold char_sig_ok in H. apply andb_true_iff in H. destruct H as [H1 H2]. apply bytes_eqb_eq in H2.
+  rewrite (surjective_pairing (sig_run LStr (escape_char (fl_ns (noslash fl)) c))), H2. f_equal.
+  generalize dependent (fst (sig_run LStr (escape_char (fl_ns (noslash fl)) c))). intros st; destruct st; (reflexivity || discriminate).
 Qed.
 Lemma escape_sig fl s : Forall byte_ok s -> sig_run LStr (escape_str fl s) = (LStr, escape_str cfl s).
 Proof.
@@ -1080,3 +1080,447 @@ Proof.
   apply andb_true_iff in H. destruct H as [H1 H2]. exists v'. repeat split; [exact H1|apply bytes_eqb_eq, H2].
 Qed.
 End RoundTrip.
+
+(* ---- symbolic execution of the tokener model on the serializer's scalar texts ---- *)
+Module RT.
+Import TokModel.
+
+Section Run.
+Variable strtod : list byte -> Z.
+
+Lemma run_cons b rest t l : run strtod (b :: rest) t l =
+      match (if validate_utf8 t then validate_utf8_step b (nbytes l) else Some (nbytes l)) with
+      | None => LOut (set_err t TE_utf8) l
+      | Some nb =>
+          let l := mkloc b nb (lobj l) (lnum l) in
+          match redo strtod REDO_FUEL t l with
+          | None => LFuel
+          | Some (Consumed t' l') =>
+              let t' := set_off t' (char_offset t' + 1) in
+              if b =? 0 then LOut t' l' else run strtod rest t' l'
+          | Some (Out t' l') => LOut t' l'
+          | Some (Redo t' l') => LFuel
+          end
+      end.
+Proof. reflexivity. Qed.
+Local Opaque run.
+
+(* the tokener of json_tokener_new() after parse_ex's prologue *)
+Definition T0 : tok := mktok [fresh_level] 32 [] false 0 0 0 0 false false false 0 TE_success.
+Definition L0 : locals := mkloc 1 0 JNull None.
+Definition lc0 (c : byte) : locals := mkloc c 0 JNull None.
+(* inside a top-level string literal *)
+Definition Tstr (sv : tstate) (p : list byte) (sp ucs off : Z) : tok :=
+  mktok [mksrec S_string sv JNull None] 32 p false sp ucs 0 34 false false false off TE_success.
+(* a finished top-level value, waiting for the end of the text *)
+Definition Tdone (v : jv) (p : list byte) (dbl : bool) (sp ucs : Z) (q : byte) (off : Z) : tok :=
+  mktok [mksrec S_eatws S_finish v None] 32 p dbl sp ucs 0 q false false false off TE_success.
+
+Lemma upto_nul_clean t : SerModel.has_byte 0 t = false -> upto_nul t = t ++ [0].
+Proof.
+  induction t as [|c t IH]; [reflexivity|]. cbn [SerModel.has_byte upto_nul app]. intros H.
+  apply orb_false_iff in H. destruct H as [H1 H2]. rewrite H1, (IH H2). reflexivity.
+Qed.
+
+(* the end of the text: the terminating NUL after a finished value *)
+Lemma run_done v p dbl sp ucs q off c0 n0 :
+  run strtod [0] (Tdone v p dbl sp ucs q off) (mkloc c0 0 JNull n0) =
+  LOut (mktok [mksrec S_finish S_finish v None] 32 p dbl sp ucs 0 q false false false off TE_success) (mkloc 0 0 JNull n0).
+Proof. rewrite run_cons. reflexivity. Qed.
+
+Lemma finish_done v p dbl sp ucs q off n0 :
+  finish_call (mktok [mksrec S_finish S_finish v None] 32 p dbl sp ucs 0 q false false false off TE_success) (mkloc 0 0 JNull n0)
+  = PR (mktok [fresh_level] 32 p dbl sp ucs 0 q false false false off TE_success) (Some v).
+Proof. reflexivity. Qed.
+
+(* ---------------- strings ---------------- *)
+Lemma open_quote rest :
+  run strtod (34 :: rest) T0 L0 = run strtod rest (Tstr S_start [] 0 0 1) (lc0 34).
+Proof. rewrite run_cons. reflexivity. Qed.
+
+Lemma close_quote sv p sp ucs off c0 rest :
+  run strtod (34 :: rest) (Tstr sv p sp ucs off) (lc0 c0) =
+  run strtod rest (Tdone (JStr p) p false sp ucs 34 (off + 1)) (lc0 34).
+Proof. rewrite run_cons. reflexivity. Qed.
+
+Lemma plain_step c sv p sp ucs off rest c0 :
+  (c =? 34) = false -> (c =? 92) = false -> (c =? 0) = false ->
+  run strtod (c :: rest) (Tstr sv p sp ucs off) (lc0 c0) =
+  run strtod rest (Tstr sv (p ++ [c]) sp ucs (off + 1)) (lc0 c).
+Proof.
+  intros H1 H2 H3. rewrite run_cons. unfold Tstr. cbn [validate_utf8 nbytes lobj lnum].
+  unfold REDO_FUEL. cbn [redo]. unfold step1. cbn [st top stack s_state lc quote_char strict].
+  rewrite H1, H2. cbn. rewrite H3. reflexivity.
+Qed.
+
+Lemma run_step b rest t l t' l' :
+  validate_utf8 t = false -> (b =? 0) = false ->
+  redo strtod REDO_FUEL t (mkloc b (nbytes l) (lobj l) (lnum l)) = Some (Consumed t' l') ->
+  run strtod (b :: rest) t l = run strtod rest (set_off t' (char_offset t' + 1)) l'.
+Proof. intros Hv Hb Hr. rewrite run_cons, Hv. cbv zeta. rewrite Hr, Hb. reflexivity. Qed.
+
+(* after a backslash; after backslash-u with [sp] hex digits read *)
+Definition Tesc (p : list byte) (sp ucs off : Z) : tok :=
+  mktok [mksrec S_string_escape S_string JNull None] 32 p false sp ucs 0 34 false false false off TE_success.
+Definition Tuni (p : list byte) (sp ucs off : Z) : tok :=
+  mktok [mksrec S_escape_unicode S_string JNull None] 32 p false sp ucs 0 34 false false false off TE_success.
+
+Lemma run_backslash sv p sp ucs off c0 rest :
+  run strtod (92 :: rest) (Tstr sv p sp ucs off) (lc0 c0) = run strtod rest (Tesc p sp ucs (off + 1)) (lc0 92).
+Proof. rewrite (run_step 92 rest _ (lc0 c0) (Tesc p sp ucs off) (lc0 92)) by reflexivity. reflexivity. Qed.
+
+(* the two-character escapes: (letter, byte denoted) *)
+Definition esc2 : list (byte * byte) := [(98, 8); (110, 10); (114, 13); (116, 9); (102, 12); (34, 34); (92, 92); (47, 47)].
+Lemma run_esc2 e v : In (e, v) esc2 -> forall p sp ucs off rest,
+  run strtod (e :: rest) (Tesc p sp ucs off) (lc0 92) = run strtod rest (Tstr S_string (p ++ [v]) sp ucs (off + 1)) (lc0 e).
+Proof.
+  intros Hin p sp ucs off rest. cbn [In esc2] in Hin.
+  repeat (destruct Hin as [Hin|Hin]; [injection Hin as <- <-;
+    rewrite (run_step _ rest _ (lc0 92) (Tstr S_string (p ++ [_]) sp ucs off) (lc0 _)) by reflexivity; reflexivity|]).
+  destruct Hin.
+Qed.
+Lemma run_u p sp ucs off rest :
+  run strtod (117 :: rest) (Tesc p sp ucs off) (lc0 92) = run strtod rest (Tuni p 0 0 (off + 1)) (lc0 117).
+Proof. rewrite (run_step 117 rest _ (lc0 92) (Tuni p 0 0 off) (lc0 117)) by reflexivity. reflexivity. Qed.
+Lemma run_h0 p off c0 rest :
+  run strtod (48 :: rest) (Tuni p 0 0 off) (lc0 c0) = run strtod rest (Tuni p 1 0 (off + 1)) (lc0 48).
+Proof. rewrite (run_step 48 rest _ (lc0 c0) (Tuni p 1 0 off) (lc0 48)) by reflexivity. reflexivity. Qed.
+Lemma run_h1 p off c0 rest :
+  run strtod (48 :: rest) (Tuni p 1 0 off) (lc0 c0) = run strtod rest (Tuni p 2 0 (off + 1)) (lc0 48).
+Proof. rewrite (run_step 48 rest _ (lc0 c0) (Tuni p 2 0 off) (lc0 48)) by reflexivity. reflexivity. Qed.
+
+Lemma Forall_zrange (P : Z -> Prop) n : forall lo, Forall P (zrange lo n) -> forall u, lo <= u < lo + Z.of_nat n -> P u.
+Proof.
+  induction n as [|n IH]; intros lo H u Hu; [lia|]. cbn [zrange] in H. inversion H; subst.
+  destruct (Z.eq_dec u lo) as [->|Hne]; [assumption|]. apply (IH (lo + 1)); [assumption|lia].
+Qed.
+
+(* the last two hex digits of backslash-u-0-0-X-Y for the byte c = 16 x + d < 32 *)
+Definition uni_goal (c : Z) : Prop := forall p off c0 rest,
+  run strtod (SerModel.hexchar (c / 16) :: SerModel.hexchar (c mod 16) :: rest) (Tuni p 2 0 off) (lc0 c0) =
+  run strtod rest (Tstr S_string (p ++ [c]) 0 c (off + 1 + 1)) (lc0 (SerModel.hexchar (c mod 16))).
+Lemma run_hex c : 0 <= c < 32 -> uni_goal c.
+Proof.
+  intros Hc. apply (Forall_zrange uni_goal 32 0); [|lia].
+  change (zrange 0 32) with [0;1;2;3;4;5;6;7;8;9;10;11;12;13;14;15;16;17;18;19;20;21;22;23;24;25;26;27;28;29;30;31].
+  repeat (constructor; [
+    match goal with |- uni_goal ?c =>
+      intros p off c0 rest;
+      rewrite (run_step _ _ (Tuni p 2 0 off) (lc0 c0) (Tuni p 3 (c / 16 * 16) off) (lc0 (SerModel.hexchar (c / 16)))) by reflexivity;
+      rewrite (run_step _ _ _ (lc0 (SerModel.hexchar (c / 16))) (Tstr S_string (p ++ [c]) 0 c (off + 1)) (lc0 (SerModel.hexchar (c mod 16)))) by reflexivity;
+      reflexivity
+    end|]).
+  constructor.
+Qed.
+
+Definition string_byte_goal (fl : sflags) (c : byte) : Prop :=
+  forall sv p sp ucs off rest c0, exists sv' sp' ucs' off' c0',
+    run strtod (escape_char fl c ++ rest) (Tstr sv p sp ucs off) (lc0 c0) =
+    run strtod rest (Tstr sv' (p ++ [c]) sp' ucs' off') (lc0 c0').
+
+Lemma string_byte_esc2 fl c e : In (e, c) esc2 -> escape_char fl c = [92; e] -> string_byte_goal fl c.
+Proof.
+  intros Hin He sv p sp ucs off rest c0. rewrite He. cbn [app].
+  rewrite run_backslash, (run_esc2 e c Hin). do 5 eexists. reflexivity.
+Qed.
+
+Lemma string_byte fl c : byte_ok c -> string_byte_goal fl c.
+Proof.
+  intros Hc. unfold byte_ok in Hc.
+  destruct (c =? 8) eqn:E8; [apply Z.eqb_eq in E8; subst c; apply (string_byte_esc2 fl 8 98); cbn; tauto|].
+  destruct (c =? 10) eqn:E10; [apply Z.eqb_eq in E10; subst c; apply (string_byte_esc2 fl 10 110); cbn; tauto|].
+  destruct (c =? 13) eqn:E13; [apply Z.eqb_eq in E13; subst c; apply (string_byte_esc2 fl 13 114); cbn; tauto|].
+  destruct (c =? 9) eqn:E9; [apply Z.eqb_eq in E9; subst c; apply (string_byte_esc2 fl 9 116); cbn; tauto|].
+  destruct (c =? 12) eqn:E12; [apply Z.eqb_eq in E12; subst c; apply (string_byte_esc2 fl 12 102); cbn; tauto|].
+  destruct (c =? 34) eqn:E34; [apply Z.eqb_eq in E34; subst c; apply (string_byte_esc2 fl 34 34); cbn; tauto|].
+  destruct (c =? 92) eqn:E92; [apply Z.eqb_eq in E92; subst c; apply (string_byte_esc2 fl 92 92); cbn; tauto|].
+  destruct (c =? 47) eqn:E47.
+  { apply Z.eqb_eq in E47; subst c. destruct (noslash fl) eqn:Ens.
+    - intros sv p sp ucs off rest c0. unfold escape_char. cbn [Z.eqb Pos.eqb]. rewrite Ens. cbn [app].
+      exists sv, sp, ucs, (off + 1), 47. apply plain_step; reflexivity.
+    - apply (string_byte_esc2 fl 47 47); [cbn; tauto|]. unfold escape_char. cbn [Z.eqb Pos.eqb]. rewrite Ens. reflexivity. }
+  destruct (c <? 32) eqn:E32.
+  - intros sv p sp ucs off rest c0. unfold escape_char. rewrite E8, E10, E13, E9, E12, E34, E92, E47, E32. cbn [app].
+    rewrite run_backslash, run_u, run_h0, run_h1, (run_hex c ltac:(lia)). do 5 eexists. reflexivity.
+  - intros sv p sp ucs off rest c0. exists sv, sp, ucs, (off + 1), c.
+    unfold escape_char. rewrite E8, E10, E13, E9, E12, E34, E92, E47, E32. cbn [app]. apply plain_step; lia.
+Qed.
+
+Lemma string_bytes fl s : Forall byte_ok s ->
+  forall sv p sp ucs off rest c0, exists sv' sp' ucs' off' c0',
+    run strtod (escape_str fl s ++ rest) (Tstr sv p sp ucs off) (lc0 c0) =
+    run strtod rest (Tstr sv' (p ++ s) sp' ucs' off') (lc0 c0').
+Proof.
+  induction 1 as [|c s Hc _ IH]; intros sv p sp ucs off rest c0.
+  - exists sv, sp, ucs, off, c0. rewrite app_nil_r. reflexivity.
+  - unfold escape_str. cbn [flat_map]. rewrite <- app_assoc.
+    destruct (string_byte fl c Hc sv p sp ucs off (flat_map (escape_char fl) s ++ rest) c0) as (sv1 & sp1 & ucs1 & off1 & c1 & H1).
+    rewrite H1. destruct (IH sv1 (p ++ [c]) sp1 ucs1 off1 rest c1) as (sv2 & sp2 & ucs2 & off2 & c2 & H2).
+    unfold escape_str in H2. rewrite H2. exists sv2, sp2, ucs2, off2, c2. rewrite <- app_assoc. reflexivity.
+Qed.
+
+Definition no_nul_ok (ns : bool) (c : byte) : bool := negb (SerModel.has_byte 0 (escape_char (fl_ns ns) c)).
+Lemma escape_char_no_nul fl c : byte_ok c -> SerModel.has_byte 0 (escape_char fl c) = false.
+Proof.
+  intros Hc.
+  assert (Ht : forallb (no_nul_ok true) (zrange 0 256) = true) by (vm_compute; reflexivity).
+  assert (Hf : forallb (no_nul_ok false) (zrange 0 256) = true) by (vm_compute; reflexivity).
+  rewrite escape_char_ns. apply negb_true_iff. unfold byte_ok in Hc. fold (no_nul_ok (noslash fl) c).
+  destruct (noslash fl); [apply (zrange_forall _ _ 0 Ht)|apply (zrange_forall _ _ 0 Hf)]; lia.
+Qed.
+Lemma quoted_no_nul fl s : Forall byte_ok s -> SerModel.has_byte 0 (quoted fl s) = false.
+Proof.
+  intros H. unfold quoted. cbn [SerModel.has_byte]. rewrite has_byte_app. cbn [SerModel.has_byte orb Z.eqb].
+  rewrite orb_false_r. unfold escape_str. induction H as [|c s Hc _ IH]; [reflexivity|].
+  cbn [flat_map]. rewrite has_byte_app, (escape_char_no_nul fl c Hc), IH. reflexivity.
+Qed.
+
+Lemma parse_string fl s : Forall byte_ok s ->
+  exists t', parse_ex_cstr strtod T0 (quoted fl s) = PR t' (Some (JStr s)) /\ err t' = TE_success.
+Proof.
+  intros H. unfold parse_ex_cstr, parse_ex. rewrite (upto_nul_clean _ (quoted_no_nul fl s H)).
+  change (set_err (set_off T0 0) TE_success) with T0. fold L0.
+  unfold quoted. cbn [app]. rewrite open_quote.
+  rewrite <- app_assoc.
+  destruct (string_bytes fl s H S_start [] 0 0 1 ([34] ++ [0]) 34) as (sv & sp & ucs & off & c0 & Hr).
+  rewrite Hr. cbn [app]. rewrite close_quote. unfold lc0. rewrite run_done, finish_done. eexists. split; reflexivity.
+Qed.
+
+(* ---------------- integers ---------------- *)
+(* inside a top-level number token that has no '.', 'e' so far; [ln c k]: the locals after k characters *)
+Definition Tnum (p : list byte) (off : Z) : tok :=
+  mktok [mksrec S_number S_start JNull None] 32 p false 0 0 0 0 false false false off TE_success.
+Definition ln (c : byte) (k : Z) : locals := mkloc c 0 JNull (Some (mknl false false false k)).
+Definition digits10 : list Z := [48;49;50;51;52;53;54;55;56;57].
+
+Lemma first_digit c : 48 <= c <= 57 -> forall rest,
+  run strtod (c :: rest) T0 L0 = run strtod rest (Tnum [c] 1) (ln c 1).
+Proof.
+  intros Hc. apply (Forall_zrange (fun c => forall rest, run strtod (c :: rest) T0 L0 = run strtod rest (Tnum [c] 1) (ln c 1)) 10 48); [|lia].
+  change (zrange 48 10) with digits10. unfold digits10.
+  repeat (constructor; [intros rest;
+     match goal with |- run _ (?d :: _) _ _ = _ => rewrite (run_step d rest T0 L0 (Tnum [d] 0) (ln d 1)) by reflexivity end; reflexivity|]).
+  constructor.
+Qed.
+Lemma first_minus rest : run strtod (45 :: rest) T0 L0 = run strtod rest (Tnum [45] 1) (ln 45 1).
+Proof. rewrite (run_step 45 rest T0 L0 (Tnum [45] 0) (ln 45 1)) by reflexivity. reflexivity. Qed.
+Lemma next_digit c : 48 <= c <= 57 -> forall p off c0 k rest,
+  run strtod (c :: rest) (Tnum p off) (ln c0 k) = run strtod rest (Tnum (p ++ [c]) (off + 1)) (ln c (k + 1)).
+Proof.
+  intros Hc. apply (Forall_zrange (fun c => forall p off c0 k rest,
+     run strtod (c :: rest) (Tnum p off) (ln c0 k) = run strtod rest (Tnum (p ++ [c]) (off + 1)) (ln c (k + 1))) 10 48); [|lia].
+  change (zrange 48 10) with digits10. unfold digits10.
+  repeat (constructor; [intros p off c0 k rest;
+     match goal with |- run _ (?d :: _) _ _ = _ =>
+       rewrite (run_step d rest (Tnum p off) (ln c0 k) (Tnum (p ++ [d]) off) (ln d (k + 1))) by reflexivity end; reflexivity|]).
+  constructor.
+Qed.
+Lemma run_digits ds : forallb digit ds = true -> forall p off c0 k rest, exists off' c0' k',
+  run strtod (ds ++ rest) (Tnum p off) (ln c0 k) = run strtod rest (Tnum (p ++ ds) off') (ln c0' k').
+Proof.
+  induction ds as [|c ds IH]; intros H p off c0 k rest.
+  - exists off, c0, k. rewrite app_nil_r. reflexivity.
+  - cbn [forallb] in H. apply andb_true_iff in H. destruct H as [Hc Hd]. unfold digit in Hc.
+    cbn [app]. rewrite next_digit by lia.
+    destruct (IH Hd (p ++ [c]) (off + 1) c (k + 1) rest) as (off' & c0' & k' & Hr).
+    exists off', c0', k'. rewrite Hr, <- app_assoc. reflexivity.
+Qed.
+
+Lemma digits_val_fold ds : forallb digit ds = true -> forall acc,
+  digits_val ds acc = (fold_left (fun a c => a * 10 + (c - 48)) ds acc, []).
+Proof.
+  induction ds as [|c ds IH]; intros H acc; [reflexivity|]. cbn [forallb] in H. apply andb_true_iff in H.
+  destruct H as [Hc Hd]. cbn [digits_val fold_left]. change (TokModel.is_digit c) with (digit c). rewrite Hc. apply IH, Hd.
+Qed.
+
+(* the classification block on an integer token, default (non-strict) mode, from the definition *)
+Lemma classify_pos ds off : forallb digit ds = true -> ds <> [] -> SerSpec.digits_value ds <= UINT64_MAX ->
+  classify_number strtod (Tnum ds off) =
+  NumVal (if SerSpec.digits_value ds <=? INT64_MAX then JInt (SerSpec.digits_value ds) else JUint (SerSpec.digits_value ds)).
+Proof.
+  intros Hd Hne Hv. destruct ds as [|c ds']; [congruence|].
+  assert (Hc : digit c = true) by (cbn [forallb] in Hd; apply andb_true_iff in Hd; tauto).
+  unfold classify_number, Tnum. cbn [pb is_double strict negb andb].
+  assert (H45 : (c =? 45) = false) by (unfold digit in Hc; lia). rewrite H45. cbn [andb].
+  rewrite (digits_val_fold _ Hd). fold (SerSpec.digits_value (c :: ds')).
+  pose proof (zlen_nonneg ds'). cbn [zlen]. replace (0 =? 1 + zlen ds') with false by lia.
+  replace (SerSpec.digits_value (c :: ds') >? UINT64_MAX) with false by lia. cbn [andb]. rewrite !andb_false_r.
+  destruct (SerSpec.digits_value (c :: ds') <=? INT64_MAX); reflexivity.
+Qed.
+Lemma classify_neg ds off : forallb digit ds = true -> ds <> [] -> SerSpec.digits_value ds <= 9223372036854775808 ->
+  classify_number strtod (Tnum (45 :: ds) off) = NumVal (JInt (- SerSpec.digits_value ds)).
+Proof.
+  intros Hd Hne Hv. unfold classify_number, Tnum. cbn [pb is_double strict negb andb Z.eqb Pos.eqb tl].
+  rewrite (digits_val_fold _ Hd). fold (SerSpec.digits_value ds).
+  destruct ds as [|c ds']; [congruence|]. pose proof (zlen_nonneg ds'). cbn [zlen].
+  replace (0 =? 1 + zlen ds') with false by lia.
+  replace (SerSpec.digits_value (c :: ds') >? 9223372036854775808) with false by lia. reflexivity.
+Qed.
+
+Local Opaque classify_number.
+Lemma run_num_end p off c0 k v : classify_number strtod (Tnum p off) = NumVal v ->
+  run strtod [0] (Tnum p off) (ln c0 k) =
+  LOut (mktok [mksrec S_finish S_finish v None] 32 p false 0 0 0 0 false false false off TE_success) (mkloc 0 0 JNull None).
+Proof.
+  intros H. rewrite run_cons. unfold Tnum, ln in *. cbn [validate_utf8 nbytes lobj lnum].
+  unfold REDO_FUEL. cbn [redo]. unfold step1 at 1. cbn. rewrite andb_false_r. cbn. rewrite H.
+  cbn. reflexivity.
+Qed.
+
+Lemma digits_no_nul ds : forallb digit ds = true -> SerModel.has_byte 0 ds = false.
+Proof. intros H. apply digits_no_byte; [exact H|reflexivity]. Qed.
+
+(* a non-empty digit string at the top level, optionally after '-' *)
+Lemma parse_digits (neg : bool) ds v :
+  digits1 ds = true ->
+  classify_number strtod (Tnum ((if neg then [45] else []) ++ ds) 0) = NumVal v ->
+  (forall off, classify_number strtod (Tnum ((if neg then [45] else []) ++ ds) off)
+               = classify_number strtod (Tnum ((if neg then [45] else []) ++ ds) 0)) ->
+  exists t', parse_ex_cstr strtod T0 ((if neg then [45] else []) ++ ds) = PR t' (Some v) /\ err t' = TE_success.
+Proof.
+  intros Hd Hv Hoff. destruct (digits1_forall _ Hd) as [Hall Hne].
+  unfold parse_ex_cstr, parse_ex. rewrite upto_nul_clean.
+  2:{ rewrite has_byte_app, (digits_no_nul ds Hall). destruct neg; reflexivity. }
+  change (set_err (set_off T0 0) TE_success) with T0. fold L0.
+  destruct neg; cbn [app].
+  - rewrite first_minus.
+    destruct (run_digits ds Hall [45] 1 45 1 [0]) as (off' & c0' & k' & Hr). rewrite Hr.
+    rewrite (run_num_end _ _ _ _ v) by (rewrite Hoff; exact Hv).
+    eexists. split; reflexivity.
+  - destruct ds as [|c ds']; [congruence|]. cbn [forallb] in Hall. apply andb_true_iff in Hall. destruct Hall as [Hc Hall'].
+    unfold digit in Hc. cbn [app]. rewrite first_digit by lia.
+    destruct (run_digits ds' Hall' [c] 1 c 1 [0]) as (off' & c0' & k' & Hr). rewrite Hr.
+    rewrite (run_num_end _ _ _ _ v) by (rewrite Hoff; exact Hv).
+    eexists. split; reflexivity.
+Qed.
+
+Lemma parse_int z : INT64_MIN <= z <= INT64_MAX ->
+  exists t', parse_ex_cstr strtod T0 (dec_s z) = PR t' (Some (JInt z)) /\ err t' = TE_success.
+Proof.
+  intros Hz. unfold INT64_MIN, INT64_MAX in Hz. unfold dec_s. destruct (z <? 0) eqn:E.
+  - destruct (dec_u_spec (- z) ltac:(lia)) as (H1 & H2 & _). destruct (digits1_forall _ H1) as [Hall Hne].
+    assert (Hc : forall off, classify_number strtod (Tnum ([45] ++ dec_u (- z)) off) = NumVal (JInt z)).
+    { intros off. cbn [app]. rewrite classify_neg by (auto; lia). rewrite H2. do 2 f_equal. lia. }
+    apply (parse_digits true (dec_u (- z)) (JInt z) H1 (Hc 0)). intros off. rewrite !Hc. reflexivity.
+  - destruct (dec_u_spec z ltac:(lia)) as (H1 & H2 & _). destruct (digits1_forall _ H1) as [Hall Hne].
+    assert (Hc : forall off, classify_number strtod (Tnum ([] ++ dec_u z) off) = NumVal (JInt z)).
+    { intros off. cbn [app]. rewrite classify_pos by (auto; unfold UINT64_MAX; lia). rewrite H2.
+      unfold INT64_MAX. replace (z <=? 9223372036854775807) with true by lia. reflexivity. }
+    apply (parse_digits false (dec_u z) (JInt z) H1 (Hc 0)). intros off. rewrite !Hc. reflexivity.
+Qed.
+Lemma parse_uint z : 0 <= z <= UINT64_MAX ->
+  exists t', parse_ex_cstr strtod T0 (dec_u z) = PR t' (Some (if z <=? INT64_MAX then JInt z else JUint z)) /\ err t' = TE_success.
+Proof.
+  intros Hz. destruct (dec_u_spec z ltac:(lia)) as (H1 & H2 & _). destruct (digits1_forall _ H1) as [Hall Hne].
+  assert (Hc : forall off, classify_number strtod (Tnum ([] ++ dec_u z) off) = NumVal (if z <=? INT64_MAX then JInt z else JUint z)).
+  { intros off. cbn [app]. rewrite classify_pos by (auto; lia). rewrite H2. reflexivity. }
+  apply (parse_digits false (dec_u z) _ H1 (Hc 0)). intros off. rewrite !Hc. reflexivity.
+Qed.
+End Run.
+End RT.
+
+(* ---------------- the round trip, scalar trees ---------------- *)
+Section RoundTripScalars.
+Variable fmt17 : Z -> list byte.
+Variable strtod : list byte -> Z.
+
+Lemma reparse_intro text v t' :
+  TokModel.parse_ex_cstr strtod RT.T0 text = TokModel.PR t' (Some v) -> TokModel.err t' = TokModel.TE_success ->
+  reparse strtod text = Some v.
+Proof. intros H1 H2. unfold reparse. change (TokModel.tok_new 32 false false false) with (Some RT.T0). cbv beta iota. rewrite H1, H2. reflexivity. Qed.
+
+(* the trees covered: a scalar other than a double, with its C range *)
+Definition scalar_ok (v : jv) : Prop :=
+  match v with
+  | JNull | JBool _ => True
+  | JInt z => INT64_MIN <= z <= INT64_MAX
+  | JUint z => 0 <= z <= UINT64_MAX
+  | JStr s => Forall byte_ok s
+  | _ => False
+  end.
+
+(* parse (serialize f v) = v' with v' json_object_equal to v, and serialize f v' = serialize f v: proved
+   for every flag word without COLOR and every scalar tree other than a double (all int64, all
+   uint64, all byte strings).  Doubles and containers are not proved here: see
+   [roundtrip_examples] and the correspondence stream. *)
+Theorem roundtrip_scalars_partial fl v : color fl = false -> scalar_ok v -> roundtrip_ok fmt17 strtod fl v.
+Proof.
+  intros Hc Hv. destruct v as [|b|z|z|bits t|s|l|l]; cbn [scalar_ok] in Hv; try contradiction.
+  - exists JNull. split; [vm_compute; reflexivity|split; reflexivity].
+  - exists (JBool b). cbn [serialize]. rewrite colored_nocolor by exact Hc.
+    destruct b; (split; [vm_compute; reflexivity|split; reflexivity]).
+  - destruct (RT.parse_int strtod z Hv) as (t' & H1 & H2). exists (JInt z). cbn [serialize]. split; [|split].
+    + apply (reparse_intro _ _ t'); assumption.
+    + cbn. apply Z.eqb_refl.
+    + reflexivity.
+  - destruct (RT.parse_uint strtod z Hv) as (t' & H1 & H2).
+    exists (if z <=? INT64_MAX then JInt z else JUint z). cbn [serialize]. split; [|split].
+    + apply (reparse_intro _ _ t'); assumption.
+    + destruct (z <=? INT64_MAX); cbn [EqModel.jv_equal].
+      * replace (z <? 0) with false by lia. unfold UINT64_MAX in Hv. unfold EqModel.two64. rewrite Z.mod_small by lia. apply Z.eqb_refl.
+      * apply Z.eqb_refl.
+    + destruct (z <=? INT64_MAX); cbn [serialize]; [|reflexivity]. unfold dec_s. replace (z <? 0) with false by lia. reflexivity.
+  - destruct (RT.parse_string strtod fl s Hv) as (t' & H1 & H2). exists (JStr s). cbn [serialize].
+    rewrite colored_nocolor by exact Hc. split; [|split].
+    + apply (reparse_intro _ _ t'); assumption.
+    + cbn [EqModel.jv_equal]. rewrite Z.eqb_refl. cbn [andb].
+      clear. induction s as [|c s IH]; [reflexivity|]. cbn. rewrite Z.eqb_refl. exact IH.
+    + reflexivity.
+Qed.
+End RoundTripScalars.
+
+(* ---------------- the round trip, end to end by computation ---------------- *)
+(* a libc stand-in for the few doubles of the example: %.17g and strtod as tables *)
+Definition ex_doubles : list (Z * list byte) :=
+  [ (4609434218613702656, [49;46;53]);                                  (* 1.5       -> 1.5 *)
+    (4607182418800017408, [49]);                                        (* 1.0       -> 1      (".0" is appended) *)
+    (13830554455654793216, [45;48]);                                    (* -0.0      -> -0 *)
+    (4591870180066957722, [48;46;49;48;48;48;48;48;48;48;48;48;48;48;48;48;48;48;48;49]);  (* 0.1 -> 0.10000000000000001 *)
+    (4906019910204099648, [49;101;43;50;48]);                           (* 1e+20 *)
+    (4908497940830202160, [49;46;53;101;43;50;48]) ].                   (* 1.5e+20 *)
+Definition ex_fmt17 (bits : Z) : list byte :=
+  match find (fun e => fst e =? bits) ex_doubles with Some e => snd e | None => [48] end.
+Definition ex_strtod (tok : list byte) : Z :=
+  let fix go (l : list (Z * list byte)) : Z :=
+    match l with
+    | [] => 0
+    | e :: r => if bytes_eqb (double_fixup flags_plain (snd e)) tok then fst e else go r
+    end in go ex_doubles.
+
+(* an array holding null, true, INT64_MIN, UINT64_MAX, the doubles 1.5 1.0 -0.0 0.1 1e+20, a string with
+   solidus, quote, backslash, NUL, 0x1f and a two-byte UTF-8 sequence, a nested object (one name with a
+   solidus, one empty name; empty array and object inside; the double 1.5e+20) and a small uint64 *)
+Definition ex_tree : jv :=
+  JArr [JNull; JBool true; JInt (-9223372036854775808); JUint 18446744073709551615;
+        JDouble 4609434218613702656 None; JDouble 4607182418800017408 None; JDouble 13830554455654793216 None;
+        JDouble 4591870180066957722 None; JDouble 4906019910204099648 None;
+        JStr [97;47;34;92;0;31;195;169];
+        JObj [([107;47], JArr [JArr []; JObj []]); ([], JObj [([120], JDouble 4908497940830202160 None)])];
+        JUint 7].
+
+(* all 16 flag words over SPACED, PRETTY, PRETTY_TAB, NOSLASHESCAPE (NOZERO off, COLOR off) *)
+Definition ex_flags : list sflags :=
+  flat_map (fun sp => flat_map (fun pr => flat_map (fun tb => map (fun ns => mkfl sp pr false tb ns false) [false; true])
+                                                    [false; true]) [false; true]) [false; true].
+
+Lemma roundtrip_examples : forallb (fun fl => roundtrip_okb ex_fmt17 ex_strtod fl ex_tree) ex_flags = true.
+Proof. vm_compute. reflexivity. Qed.
+
+(* and the same tree under NOZERO: the round trip is lost on 1.5e+20 *)
+Lemma roundtrip_nozero_example :
+  roundtrip_okb ex_fmt17 ex_strtod (mkfl false false true false false false) ex_tree = false.
+Proof. vm_compute. reflexivity. Qed.
+
+(* the full round-trip statement, for the record (not proved beyond the parts above) *)
+Definition roundtrip_statement : Prop :=
+  forall fmt17 strtod, fmt17_ok fmt17 ->
+    (forall bits n, dbl_finite bits = true -> num_ok n = true -> render_num n = double_fixup flags_plain (fmt17 bits) ->
+                    strtod (render_num n) = bits) ->
+    forall fl v, color fl = false -> jv_Forall (node_ok fmt17 fl) v -> roundtrip_ok fmt17 strtod fl v.
+
+Lemma nonvacuous : fmt17_ok w_fmt17 /\ jv_Forall (node_ok w_fmt17 flags_plain) (JArr [JDouble w_bits None; JStr [0;47;255]; JObj [([97], JNull)]]).
+Proof.
+  split; [exact w_fmt17_ok|]. cbn. repeat split; try (left; reflexivity).
+  - repeat constructor; unfold byte_ok; lia.
+  - repeat constructor; unfold byte_ok; lia.
+Qed.
